@@ -64,7 +64,7 @@ def flat(px):
         for p in px['parts']:
             r += flat(p)
         return r
-    if px.get('op') == 'map':
+    if px.get('op') in ('map', 'recognize'):
         return flat(px['p'])
     return [px]
 
@@ -372,6 +372,20 @@ def run_comments(ctx):
                     if None not in ex:
                         guards[lit_of(ch['p'])] = ex
                         continue
+            # a chunk that starts with the first character of a multi-character closer and then CONSUMES a further character (instead of
+            # looking ahead) can eat the first character of the real closer: `**/`
+            fl = flat(ch)
+            core0 = fl[0] if fl else {}
+            while core0.get('op') in ('recognize',):
+                core0 = core0.get('p', {})
+            first_ = lit_of(fl[0]) if fl else None
+            if first_ is not None and len(first_) == 1 and any(c_ and c_[0] == first_ and len(c_) > 1 for c_ in closers) and len(fl) >= 2 \
+                    and all(x.get('op') not in ('peek', 'not') for x in fl[1:]):
+                r.fail('%s:partial-closer-consumes-next:%s' % (key, first_.encode('unicode_escape').decode()), W(f),
+                       '%s: the chunk `%s` takes %r together with the following character: when that character is itself the %r of the closer (as in `%s%s`) the closer is '
+                       'skipped and the comment runs on' % (f.name, grammar.show(ch)[:50], first_, first_, first_, [c_ for c_ in closers if c_][0]))
+                unknown = True
+                continue
             unknown = True
             r.undecided(key + ':chunk', W(f), '%s: body chunk `%s` is not a class or a guarded single character' % (f.name, grammar.show(ch)[:50]))
         r.inst(key, {'comment': f.name, 'opens_with': opener, 'closers': closers, 'closer_optional': optional_close,
